@@ -680,6 +680,12 @@ def _verdict(ob, res, rec, sym_ok):
         return "canary-dead"
     real = [v for v in violated if v[2] != "refuted-not-reproduced"]
     if real:
+        if not ob.inductive:
+            # counter-models that do not reproduce on the real code are not violations (they are undecided); only the reproduced ones are reported
+            dropped = [v[0] for v in violated if v[2] == "refuted-not-reproduced"]
+            if dropped:
+                res["not_reproduced"] = dropped
+            res["violated"] = [{"label": l, "inputs": i, "how": h} for l, i, h in real]
         return "refuted"
     if violated:
         # solver says sat but the counter-model does not reproduce on the real code and the bounded native search
